@@ -14,6 +14,7 @@ import (
 
 var families = map[string]func(*h.Run){
 	"C10": props.C10,
+	"C16": props.C16,
 	"C18": props.C18,
 }
 
